@@ -1,5 +1,16 @@
 """C07 Translation-time constant evaluation equals run-time evaluation (DESIGN.md section 3, C07).
 
+Rules (keys are rule:unit:function:construct):
+  R07.1 folder vs gen_expr: same signed/unsigned choice per operand type for / % >> < <=
+  R07.2 results of 64-bit host arithmetic reduced to node->ty (u32 arms; every ND_CAST target class)
+  R07.3 mixed-sign conditional widened afterwards (typed pattern, all units)
+  R07.4 zero divisor tested and diagnosed before every integer host / and %
+  R07.5 is_const_expr <-> eval2: accepted kinds have arms, foldable kinds are accepted, operands required constant
+  R07.6 operands that may be floating never go through the integer folder unguarded (eval2 and eval_double)
+  R07.7 consumers: no narrow intermediate that is widened again; const_expr returns the value unchanged;
+        shifts by bit_width/bit_offset are 64-bit (all units); case labels: see R03.2
+  R07.8 operator table of eval2 / eval_double, type dispatch between the two, eval_double's ND_CAST
+
 The folder (parse.c eval2 / eval_double / is_const_expr) is summarised once per
 node kind by a path-splitting symbolic executor (sa/lib_c07.py) that keeps, for
 every host operation, the C type clang computed for it.  The rules compare those
@@ -11,7 +22,7 @@ Nothing is compiled or run.
 from ..build import AnalysisBroken
 from ..chibi import Catalogue
 from ..lib_c07 import (SymExec, TypeFacts, Unsupported, pred_tables, show, tshow, strip_casts, strip_widening, walk,
-                       cast_chain, chain_signature, oracle_signature, ctype)
+                       chain_signature, oracle_signature, ctype, WITNESS)
 
 U = 'parse.c'
 NODE = ('sym', 'node')
@@ -152,16 +163,6 @@ class Folder:
         if kind in BINOPS or kind in UNOPS or kind in TRUTH:
             return tuple(t for t in self.INTLIKE if t != 'bool')
         return self.INTLIKE
-
-    def has_arm(self, fname, kind):
-        ps = self.int_paths(kind) if fname == 'eval2' else self.flo_paths(kind)
-        return any(p.outcome[0] == 'ret' for p in ps)
-
-
-def where(u, fname, p=None):
-    if p is not None and p.outcome[0] == 'noreturn':
-        return '%s:%d' % (U, p.outcome[3])
-    return '%s:%d' % (U, u.fn(fname).line)
 
 
 def line_of_kind(u, fname, kv):
@@ -315,7 +316,7 @@ def r078(F, rep):
     except Unsupported as e:
         rep.undecided('R07.8', '%s:eval2:dispatch' % U, 'cannot summarise the type dispatch of the folder: %s' % e)
 
-    for fname, table in (('eval2', None), ('eval_double', None)):
+    for fname in ('eval2', 'eval_double'):
         floating = fname == 'eval_double'
         for kind in F.kinds:
             binop = (DBL_BINOPS if floating else BINOPS).get(kind)
@@ -597,7 +598,6 @@ def r072(F, rep):
                     want = oracle_signature(rec['size'] * 8, not rec['is_unsigned'], boolean=(cls == 'bool')) if cls != 'ptr' else oracle_signature(64, True)
                     if sig != want:
                         good = False
-                        from ..lib_c07 import WITNESS
                         i = [k for k in range(len(sig)) if sig[k] != want[k]][0]
                         msg = ('a cast to %s (%d bytes, %s) is folded as %s: operand value %d becomes %d, the conversion yields %d' % (
                             t, rec['size'], 'unsigned' if rec['is_unsigned'] else 'signed', show(p.outcome[1]), WITNESS[i], sig[i], want[i]))
@@ -1084,7 +1084,6 @@ def r077(F, P, rep):
             for n in fd.walk():
                 if n.kind != 'BinaryOperator' or n.opcode != '<<':
                     continue
-                cnt = n.inner[1].strip_all()
                 fields = [m.name for m in n.inner[1].walk() if m.kind == 'MemberExpr' and m.name in ('bit_width', 'bit_offset')]
                 if not fields:
                     continue
